@@ -197,13 +197,14 @@ Theorem C11_state_spec_from_interval_1 : forall u kq tail ts k pre b post,
             NoDup (map fst l) /\
             vals k l = [fold_key u k (kbatches kq (length ts)) VNone].
 Proof. exact state_spec_from_start. Qed.
-(* ... and five of the seven library functions are of that kind; history and idle are not (for them the code's
+(* ... and seven of the nine library functions are of that kind; history and idle are not (for them the code's
    reading -- from the key's first interval -- is the only one claimed) *)
 Theorem C11_library_no_state_like :
   no_state_like u_sum /\ no_state_like u_last /\ no_state_like u_count /\ no_state_like u_append /\
-  no_state_like u_decay.
+  no_state_like u_decay /\ no_state_like u_reset /\ no_state_like u_minopt.
 Proof.
-  exact (conj u_sum_no_state (conj u_last_no_state (conj u_count_no_state (conj u_append_no_state u_decay_no_state)))).
+  exact (conj u_sum_no_state (conj u_last_no_state (conj u_count_no_state (conj u_append_no_state
+          (conj u_decay_no_state (conj u_reset_no_state u_minopt_no_state)))))).
 Qed.
 Theorem C11_library_not_no_state_like : ~ no_state_like u_history /\ ~ no_state_like u_idle.
 Proof. exact (conj u_history_not_no_state u_idle_not_no_state). Qed.
@@ -212,6 +213,15 @@ Proof. exact (conj u_history_not_no_state u_idle_not_no_state). Qed.
 Theorem C11_library_sees_absent_keys :
   u_history [] (VList []) <> VList [] /\ u_idle [] (VInt 0) <> VInt 0 /\ u_decay [] (VInt 3) <> VInt 3.
 Proof. exact absent_key_changes_state. Qed.
+
+(* a None state is a state: last, reset and min-or-None return None, and the key stays in the state RDD (this is
+   C11_state_keys / C11_state_keys_persist, which hold for every update function, on concrete histories) *)
+Theorem C11_none_is_a_state :
+  state_after u_last [[(0, VInt 3); (0, VNone)]; []] 2 = [(0, VNone)] /\
+  state_after u_reset [[(0, VInt 3)]; []; [(0, VInt 1)]] 2 = [(0, VNone)] /\
+  state_after u_reset [[(0, VInt 3)]; []; [(0, VInt 1)]] 3 = [(0, VInt 1)] /\
+  state_after u_minopt [[(0, VNone); (1, VInt 2)]; [(1, VNone); (1, VInt (-1))]] 2 = [(1, VInt (-1)); (0, VNone)].
+Proof. exact none_is_a_state. Qed.
 
 (* what k consumers of the state stream observe: no tick raises; one capture per consumer and tick, all equal to
    the state RDD of that interval (the state advances once per tick however many consumers there are) *)
